@@ -1095,7 +1095,7 @@ class DT(Function):
         self.model = model
 
     def term(self, time="t"):
-        return "{}".format(self.model.dt)
+        return "model.dt"
 
 
 class Starttime(Function):
@@ -1107,7 +1107,7 @@ class Starttime(Function):
         self.model = model
 
     def term(self, time="t"):
-        return "{}".format(self.model.starttime)
+        return "model.starttime"
 
 
 class Stoptime(Function):
@@ -1119,7 +1119,7 @@ class Stoptime(Function):
         self.model = model
 
     def term(self, time="t"):
-        return "{}".format(self.model.stoptime)
+        return "model.stoptime"
 
 
 class Time(Function):
@@ -1178,9 +1178,9 @@ class Pulse(Function):
 
     def term(self, time="t"):
         if self.interval.element == 0.0:
-            return "(({}/{}) if {}=={} else 0.0)".format(self.volume.term(time), self.model.dt, time, self.first_pulse)
+            return "((({})/model.dt) if ({})==({}) else 0.0)".format(self.volume.term(time), time, self.first_pulse)
         else:
-            return "(({volume}/{dt}) if (({time}-{first_pulse}) >= 0 and (({time}-{first_pulse})%({interval}))==0) else 0.0)".format(volume=self.volume.term(time), dt=self.model.dt, time=time, first_pulse=self.first_pulse, interval=self.interval)
+            return "((({volume})/{dt}) if (({time}-{first_pulse}) >= 0 and (({time}-{first_pulse})%({interval}))==0) else 0.0)".format(volume=self.volume.term(time), dt="model.dt", time=time, first_pulse=self.first_pulse, interval=self.interval)
 
 
 class Trend(Function):
